@@ -324,7 +324,9 @@ func (a *Box2) lineFilter(lSet []*Line2) []*Line2 {
 	var out []*Line2
 	for _, l := range lSet {
 		x := a.lineIntersect(l)
-		if x != nil {
+		// a piece whose end points were snapped onto the same spot has no direction
+		// (its unit vector is NaN) and adds nothing to what its neighbours contribute
+		if x != nil && x[0] != x[1] {
 			out = append(out, x)
 		}
 	}
